@@ -34,7 +34,8 @@ RULE = ("histories of 3-25 steps on one ReconnectLogic + APIClient from {start()
         "on any zeroconf instance, a library-created instance is closed, a supplied one never. Non-trivial = at least one attempt was judged; distinct = "
         "(variant, history, attempt/callback outcome sequence)")
 ASSUMPTIONS = [
-    "user callbacks return immediately (a callback that suspends holds the manager's lock; attempt instants are then measured from its return)",
+    "exact attempt instants (b)/(c) are judged with user callbacks that return immediately; in the slow-callback variants (callbacks suspend 0.3 s while "
+    "holding the manager's lock) the return instant of any callback also justifies an attempt and (c) is not judged - (a), (d), (e) are",
     "after an auth/encryption-class error the manager keeps retrying at 60 s also for later non-auth failures; both 60 s and the count-based backoff are "
     "accepted as justified there, and exactness (c) is judged only where the statement gives a single value",
     "an attempt the manager itself cancels (stop, or a restart while still resolving/connecting) may or may not be reported to on_connect_error",
@@ -126,10 +127,18 @@ def run_history(case: dict[str, Any]) -> dict[str, Any]:
         cli = sim.client(address, 6053, "pw", **kw)
         cbs: list[tuple[Any, ...]] = []   # (seq, t, name, phase, arg)
 
+        slow = float(var.get("slow_cb") or 0.0)
+
         def mk(name: str) -> Any:
             async def cb(*a: Any) -> None:
                 cbs.append((sim.next_seq(), sim.clock, name, "enter", a[0] if a else None))
                 sim.log("cb", name, a[0] if a and not isinstance(a[0], BaseException) else (type(a[0]).__name__ if a else None))
+                if slow:
+                    # an application callback that suspends (it holds the manager's lock meanwhile); a cancellation of the manager's task
+                    # while it is in here ends the callback without a 'ret' event
+                    fut = sim.loop.create_future()
+                    sim.net.at(sim.clock + slow, lambda: fut.done() or fut.set_result(None))
+                    await fut
                 cbs.append((sim.next_seq(), sim.clock, name, "ret", a[0] if a else None))
             return cb
 
@@ -269,7 +278,7 @@ def judge(case: dict[str, Any], o: dict[str, Any]) -> tuple[list[tuple[str, str]
     out: list[tuple[str, str]] = []
     st = {"attempts": 0, "attempts_failed": 0, "sessions": 0, "sessions_ended": 0, "mdns_delivered_matching": 0, "mdns_not_delivered": 0,
           "due_checked": 0, "due_skipped": 0, "stops": 0, "starts": 0, "restarts(manager-cancelled)": 0, "justified_by/start": 0, "justified_by/backoff": 0,
-          "justified_by/disconnect": 0, "justified_by/mdns": 0, "refused-by-client(already connected)": 0}
+          "justified_by/disconnect": 0, "justified_by/mdns": 0, "justified_by/lock-released-by-callback": 0, "refused-by-client(already connected)": 0}
     evs: list[tuple[int, float, str, Any]] = []
     for e in o["log"]:
         if e[3] in ("start_connection", "finish_connection"):
@@ -318,7 +327,11 @@ def judge(case: dict[str, Any], o: dict[str, Any]) -> tuple[list[tuple[str, str]
                 return why
         return None
 
+    slow = bool(case["variant"].get("slow_cb"))
     for seq, t, kind, e in evs:
+        if slow and kind.startswith("cb:") and kind.endswith(":ret"):
+            # callbacks run under the manager's lock: an attempt that became due while a callback was suspended starts when it returns
+            J.append((t, "lock-released-by-callback"))
         if kind == "conn:new":
             if open_conns:
                 out.append(("C18/two-connections-alive", f"connection object #{e} created while #{sorted(open_conns)} not closed"))
@@ -484,8 +497,8 @@ def judge(case: dict[str, Any], o: dict[str, Any]) -> tuple[list[tuple[str, str]
             J.append((t + wait, "disconnect"))
             if not stopped and not stop_pending:
                 dues.append({"t": t + wait, "seq": seq, "why": f"{'expected' if e else 'unexpected'} disconnect at t={t:.6f} + {wait:g} s"})
-    # ---- (c) bounded progress
-    for d in dues:
+    # ---- (c) bounded progress (exact instants are only defined when callbacks do not suspend)
+    for d in ([] if slow else dues):
         if d["t"] > o["t_final_stop"] - 1e-3:
             st["due_skipped"] += 1
             continue
@@ -542,7 +555,7 @@ def judge(case: dict[str, Any], o: dict[str, Any]) -> tuple[list[tuple[str, str]
 
 
 # ---------------------------------------------------------------- generators
-VARIANTS = [{"addr": a, "noise": n, "zc": z} for a in ("ip", "local", "literal") for n in (False, True) for z in ("library", "supplied")]
+VARIANTS = [{"addr": a, "noise": n, "zc": z, "slow_cb": sc} for a in ("ip", "local", "literal") for n in (False, True) for z in ("library", "supplied") for sc in (0.0, 0.0, 0.3)]
 
 ALPHABET: list[Any] = [
     ["start"], ["stop"], ["world", "refuse"], ["world", "ok"], ["run", 2.0], ["run", "timer"], ["mdns", "match-ptr"], ["mdns", "nomatch-a"],
@@ -610,7 +623,7 @@ def one(ctx: Ctx, case: dict[str, Any], label: str) -> None:
             res.count(f"callback/{c[2]}" + (f"/{type(c[4]).__name__}" if c[2] == "on_connect_error" else f"/{c[4]}" if c[2] == "on_disconnect" else ""))
     if st["attempts"]:
         v = case["variant"]
-        res.sig((v["addr"], v["noise"], v["zc"]), tuple(map(tuple, case["hist"])),
+        res.sig((v["addr"], v["noise"], v["zc"], v.get("slow_cb")), tuple(map(tuple, case["hist"])),
                 tuple((e[2], e[3], e[5] if e[2] == "ret" else None) for e in o["log"] if e[3] != "disconnect"))
     for key, what in found:
         res.violation(key, what, {"case": case}, trace=o["trace"][-120:])
@@ -635,7 +648,7 @@ def shard(ctx: Ctx) -> None:
                 # the manager is started first so that every history exercises it; the variant rotates
                 hist = [["start"]] + [list(ALPHABET[i]) for i in combo]
                 one(ctx, {"variant": VARIANTS[idx % len(VARIANTS)], "hist": hist}, f"all-histories-len{ln}")
-    for _ in range(30000 if ctx.thorough else 2500):
+    for _ in range(90000 if ctx.thorough else 10000):
         h = gen_history(rng)
         v = rng.choice(VARIANTS)
         idx += 1
